@@ -8,6 +8,14 @@ from .common import (PREFIX, And, Case, Not, Or, U, all_close, call, check_names
                      si_close, vabs)
 
 LEVEL = "other"
+MANIFEST = dict(
+    category="other",
+    text=("Bounded symbolic execution of the real conversion code (symx): for every enumerated pair/triple of unit kinds and "
+          "every entry point, z3 proves identity, inverse, composition, route agreement and the affine SI oracle for ALL real "
+          "values, scales and offsets (unsat of pc & not P per path); any model is replayed on plain unyt. Bounded: kinds, "
+          "payload shapes <= (2,2); rounding is outside."),
+    design="DESIGN.md section 4 C03",
+    technique="symbolic execution of the real Python code over z3 real terms; SMT (QF_NRA) obligations per path; counterexample replay")
 EXPLANATION = (
     "The real _get_conversion_factor, _split_prefix, _check_em_conversion, _em_conversion, in_units/to, to_value, "
     "convert_to_units, in_base/in_cgs/in_mks, convert_to_base/cgs/mks, get_base_equivalent and Unit.get_conversion_factor "
